@@ -447,6 +447,8 @@ def _execute_once(scn, plan, keep, wall_cap, binary, want_trace):
             "HOME": wd,
             "LANG": "C.UTF-8",
         }
+        if os.environ.get("S4SIM_LLVM_PROFILE"):      # reach measurement only (tools/coverage.sh)
+            env["LLVM_PROFILE_FILE"] = os.environ["S4SIM_LLVM_PROFILE"]
         if getattr(plan, "iofault", None):
             env["S4SIM_IOFAULT"] = plan.iofault
             for part in plan.iofault.split(";"):
